@@ -444,10 +444,44 @@ def refT (tm : Py) (nm : String) (path : List Key) : Py :=
 
 def Elem.subT (tm : Py) (e : Elem) (idx : List Key) : Option Py := (e.path idx).map (refT tm e.name)
 
+/-! aggregates with any sub-element reference `mk path` (`ref e.name` at time `t`, `refT tm e.name` in general):
+`_array_resolve` / `_matrix_element_to_string` call `element.term(time)` of every leaf -/
+def Elem.rowsM (mk : List Key → Py) (e : Elem) : List (List Py) :=
+  if e.inner.isEmpty then e.keys.map fun k => [mk [k]]
+  else e.keys.map fun k => e.inner.map fun l => mk [k, l]
+
+def Elem.displayM (mk : List Key → Py) (e : Elem) : Py :=
+  if e.inner.isEmpty then .list (e.rowsM mk).flatten else .list ((e.rowsM mk).map .list)
+
+def aggArrM (mk : List Key → Py) (g : Agg) (e : Elem) : Option Py :=
+  match g with
+  | .sum => (chain .add (e.rowsM mk).flatten).map .paren
+  | .prod => (chain .mul (e.rowsM mk).flatten).map .paren
+  | .mean => some (npCall "mean" (e.displayM mk))
+  | .median => some (npCall "median" (e.displayM mk))
+  | .std => some (npCall "std" (e.displayM mk))
+  | .size => some (natPy e.keys.length)
+  | .rank neg k =>
+    some (.index (.call (.name "sorted") [.list (e.rowsM mk).flatten, .kw "reverse" (.name "True")])
+                 (rankIndexPy neg k e.count))
+
+def aggScalarM (r : Py) (g : Agg) : Py :=
+  match g with
+  | .sum => .paren r
+  | .prod => .paren r
+  | _ => .num "0.0"
+
+/-- the aggregate's text with the time argument `tm` -/
+def aggTermT (tm : Py) (g : Agg) (e : Elem) : Option Py :=
+  if e.arrayed then aggArrM (refT tm e.name) g e else some (aggScalarM (refT tm e.name []) g)
+
+/-- `agg g e`: an aggregate operator (`e.arr_sum()`, …) as operand — an `Operator` that is not arrayed, resolves to
+`-1`, whose clone ignores the index and whose text is the aggregate's expansion (wave 6) -/
 inductive Ex
   | num (neg : Bool) (lit : String)
   | el (e : Elem)
   | op (f : Form) (a b : Ex)
+  | agg (g : Agg) (e : Elem)
 deriving Repr, Inhabited
 
 def Ex.ofOperand : Operand → Ex
@@ -464,6 +498,7 @@ def Ex.anyArr : Ex → Bool
   | .num _ _ => false
   | .el e => e.arrayed
   | .op _ a b => a.anyArr || b.anyArr
+  | .agg _ _ => false
 
 def Ex.namedArr : Ex → Bool
   | .el e => e.arrayed && e.named
@@ -511,6 +546,7 @@ def Ex.dims : Ex → Option Dims
     match a.dims, b.dims with
     | some d1, some d2 => (match f with | .dot => resolveDotD d1 d2 | _ => resolveEwD d1 d2)
     | _, _ => none
+  | .agg _ _ => some .val
 
 /-- `cur = x; for i in idx: cur = cur[i]; cur.term(time)` — only elements can be subscripted -/
 def Ex.subEl (tm : Py) (x : Ex) (idx : List Key) : Option Py :=
@@ -526,6 +562,7 @@ def opt2 (f : Py → Py → Py) : Option Py → Option Py → Option Py
 def Ex.term (tm : Py) : Ex → Option (List Key) → Option Py
   | .num n l, _ => some (numPy n l)
   | .el e, _ => some (refT tm e.name [])
+  | .agg g e, _ => aggTermT tm g e
   | .op (.ew o) a b, I =>
     if a.arrEl || b.arrEl then                       -- `self.arrayed`
       match I with
@@ -831,6 +868,7 @@ deriving DecidableEq, Repr, Inhabited
 def Ex.termC (c : Cfg) (tm : Py) : Ex → Option (List Key) → Option (List Key) → Option Py
   | .num n l, _, _ => some (numPy n l)
   | .el e, _, _ => some (refT tm e.name [])
+  | .agg g e, _, _ => aggTermT tm g e
   | .op (.ew o) a b, I, K =>
     if a.arrEl || b.arrEl then
       match I with
@@ -938,5 +976,58 @@ def expandEC (c : Cfg) (tm : Py) (x : Ex) : Option Result :=
           | .d2 m n => (matEntriesC c tm x m n).map .matrix
           | _ => none
   | _ => none
+
+/-! ## Wave 6: the rejection of mismatching shapes as a probed fact
+
+`checkEw`: `resolve_dimensions` of `+ - * /` and number*array compares the operands' dimensions when both are arrays.
+The variant that returns the first arrayed operand's dimensions without looking at the other one (`checkEw = false`)
+accepts `2x2 + 2x3`. -/
+structure DimCfg where
+  checkEw : Bool
+deriving DecidableEq, Repr, Inhabited
+
+def Ex.dimsC (c : DimCfg) : Ex → Option Dims
+  | .num _ _ => some .val
+  | .el e => some (elemDims e)
+  | .agg _ _ => some .val
+  | .op f a b =>
+    match f with
+    | .dot =>
+      (match a.dimsC c, b.dimsC c with
+       | some d1, some d2 => resolveDotD d1 d2
+       | _, _ => none)
+    | _ =>
+      if c.checkEw then
+        (match a.dimsC c, b.dimsC c with
+         | some d1, some d2 => resolveEwD d1 d2
+         | _, _ => none)
+      else
+        (match a.dimsC c with
+         | some d1 => if d1 ≠ .val then some d1 else b.dimsC c      -- the other operand is not even asked
+         | none => none)
+
+/-- operands of the probe table: a leaf of shape m×n (`0 0` scalar, `m 0` vector), the sum of two such leaves,
+matrix(m×k)·vector(k) (reports the one-element list `[m]`) -/
+inductive OpCode
+  | leaf (m n : Nat)
+  | sum (m n : Nat)
+  | mv (m k : Nat)
+deriving DecidableEq, Repr, Inhabited
+
+def leafEx (nm : String) (m n : Nat) : Ex :=
+  .el (if m = 0 then Elem.scalar nm else if n = 0 then Elem.vec nm m else Elem.mat nm m n)
+
+def OpCode.toEx (nm : String) : OpCode → Ex
+  | .leaf m n => leafEx nm m n
+  | .sum m n => .op (.ew .add) (leafEx (nm ++ "1") m n) (leafEx (nm ++ "2") m n)
+  | .mv m k => .op .dot (leafEx (nm ++ "1") m k) (leafEx (nm ++ "2") k 0)
+
+def formOfNat : Nat → Form
+  | 0 => .ew .add | 1 => .ew .sub | 2 => .ew .mul | 3 => .ew .div | 4 => .nmul | _ => .dot
+
+/-- one probed row: operator class, operands, "constructor and resolve_dimensions() both succeed" -/
+def rowOK (c : DimCfg) (row : Nat × OpCode × OpCode × Bool) : Bool :=
+  let x := Ex.op (formOfNat row.1) (row.2.1.toEx "A") (row.2.2.1.toEx "B")
+  (x.wf && (x.dimsC c).isSome) == row.2.2.2
 
 end Bptk.C10
